@@ -521,8 +521,14 @@ static void generate(Rng &rng, const Opts &o, std::vector<std::string> &lines) {
     // second build of this file (no sanitizers, -O2): the large exhaustive enumerations
     for (long fwd = 0; fwd < 2; ++fwd) {
         if (th) {
+            // every 5x5 pattern: forward with 4 threads (a 5-row level is cut 2+2+1+0), backward with 5 threads
+            // (one row per thread); the two other combinations on a quarter of the patterns
             const long shards = 16, tot = 1L << 20;
-            for (long nt : std::vector<long>{4, 5}) for (long s = 0; s < shards; ++s) { Line l; l << fwd << nt << 5L << s * (tot / shards) << (s + 1) * (tot / shards); gs_op("sched_exh", l.get()); }
+            for (long nt : std::vector<long>{4, 5}) for (long s = 0; s < shards; ++s) {
+                bool full = (fwd == 1) == (nt == 4);
+                if (!full && (s + o.seed) % 4 != 0) continue;
+                Line l; l << fwd << nt << 5L << s * (tot / shards) << (s + 1) * (tot / shards); gs_op("sched_exh", l.get());
+            }
             for (long nt : NTS) { Line l; l << fwd << nt << 4L << 0L << (1L << 12); gs_op("sched_exh", l.get()); }
             for (long nt : std::vector<long>{4, 5, 17}) { Line l; l << "sched_exh_ilu" << fwd << nt << 6L << 0L << (1L << 15); lines.push_back(l.get()); }
         } else {
@@ -584,4 +590,18 @@ static void generate(Rng &rng, const Opts &o, std::vector<std::string> &lines) {
     lines.push_back("sched_exh 1 4 4 0 5000");                              // range beyond 2^12
 }
 
-VH_MAIN(generate, execute)
+// Performance only (results do not depend on it): on a machine that is already oversubscribed, spinning OpenMP
+// threads make every parallel region wait for a full scheduler round; libgomp reads its environment before
+// main(), so re-exec once with a passive wait policy when the 1-minute load exceeds the number of CPUs.
+int main(int argc, char **argv) {
+    if (!getenv("VH_SCHED_REEXEC")) {
+        setenv("VH_SCHED_REEXEC", "1", 1);
+        double load = 0; if (FILE *f = fopen("/proc/loadavg", "r")) { if (fscanf(f, "%lf", &load) != 1) load = 0; fclose(f); }
+        long ncpu = sysconf(_SC_NPROCESSORS_ONLN);
+        if (load > 0.9 * (double)ncpu && !getenv("OMP_WAIT_POLICY")) {
+            setenv("OMP_WAIT_POLICY", "passive", 1);
+            execv("/proc/self/exe", argv);
+        }
+    }
+    return vh::harness_main(argc, argv, generate, execute);
+}
